@@ -16,6 +16,7 @@ ASSUMPTIONS = ["fast-decaying solutions under purely relative tolerances are jud
                "'smooth' is relative to the step: steps more than twice as long as the width of the Gaussian feature they run into (bump problems) are not judged",
                "problems are contractive along the direction of integration (logarithmic norm <= 0), so the problem's own amplification is ~1",
                "tolerance unit per component: atol + rtol*max(|y_i|, 0.1*max_j|y_j|) (a component passing through zero is judged on the scale of the solution)"]
+RULE += " Strata added in the fourth seeding round: Per-component absolute tolerances (arrays) with every component judged in its own unit."
 FLOORS = {"quick": {"runs_checked": 45, "local_steps_checked": 1000, "rejected_attempts_forward": 30, "rejected_attempts_backward": 30, "blowup_runs": 6, "blowup_raised": 1, "closing_step_rejected": 8, "decaying_runs_judged_locally": 12, "runs_with_per_component_atol": 10},
           "thorough": {"runs_checked": 400, "local_steps_checked": 10000, "rejected_attempts_forward": 300, "rejected_attempts_backward": 300, "blowup_runs": 25, "blowup_raised": 5, "closing_step_rejected": 30, "decaying_runs_judged_locally": 12, "runs_with_per_component_atol": 40}}
 K_TOL = 200.0
